@@ -33,9 +33,10 @@ def cases(tier, seed):
         body = [G.random_syntax_stmt(rng, 4, leaves) for _ in range(rng.randint(1, 6))]
         out.append(("r", relabel(body, [0])))
     # statements that a LATER stage rejects (assignment to a parameter: E530; a call with a wrong number of
-    # arguments: E511; an undefined name is an EARLIER stage and hides the statement) in every position: the
-    # placement rules are judged first
-    leaves_o = leaves + [('raw', 'p = 3;'), ('raw', 'helper(r, r);'), ('raw', 'r = helper(r);')]
+    # arguments: E511) in every position: the placement rules are judged first.  An undefined FUNCTION or a
+    # duplicate label is an earlier stage that replaces the whole statement and hides it; an undefined ASSIGNEE
+    # (E402) does not: the assignment stays an assignment and is judged where it stands
+    leaves_o = leaves + [('raw', 'p = 3;'), ('raw', 'helper(r, r);'), ('raw', 'r = helper(r);'), ('raw', 'nowhere = 3;')]
     for i in range(1500 if tier == "quick" else 30000):
         body = [G.random_syntax_stmt(rng, 3, leaves_o) for _ in range(rng.randint(1, 5))]
         out.append(("o", relabel(body, [0])))
